@@ -8,6 +8,7 @@ use crate::build::*;
 use crate::driver::*;
 use crate::gen::*;
 use crate::grammar::*;
+use crate::reference::{self, RefOpts};
 use crate::run::*;
 use crate::val::Val;
 use chumsky::cache::{Cache, Cached};
@@ -257,9 +258,19 @@ pub fn gen_case(tape: &[u32]) -> (G, Vec<String>, Vec<Step>) {
     let cands: Vec<Vec<char>> = (0..6).map(|_| gen_input(&g, &mut t, &alpha, 10)).collect();
     let strs: Vec<String> = cands.iter().map(|c| c.iter().collect()).collect();
     let p: P = build::<&str, RS>(&g, false);
+    // recursive grammars can backtrack exponentially: candidates on which the reference needs many evaluations are
+    // never run (class 4: not picked below unless nothing else is left, and then the caller's guard skips the case)
+    let has_rec = g.any_node(&|n| matches!(n, G::Rec(..)));
     let class: Vec<u8> = strs
         .iter()
-        .map(|s| {
+        .zip(&cands)
+        .map(|(s, c)| {
+            if has_rec {
+                let pre = reference::eval(&g, c, RefOpts::default());
+                if pre.stats.evals > 4_000 || pre.stats.fuel_out {
+                    return 4;
+                }
+            }
             let r = runp(&p, s.as_str(), false);
             if r.panic.is_some() {
                 3
